@@ -1318,3 +1318,502 @@ func ruleJSONEnd(c *Ctx) {
 	}
 	c.Floor("J.end", 1)
 }
+
+// ---------------------------------------------------------------------------
+// X.skip.unknownwt: Skip succeeds only for wire types that exist. With the wt
+// parameter forced (FEAS) to each value no codec reports (4, 6, 7), every
+// feasible return carries a non-nil error.
+
+func ruleSkipUnknownWT(c *Ctx) {
+	p := c.P
+	name := "plenccore.Skip"
+	f := p.ssaFunc(name)
+	if f == nil {
+		c.Oblige("X.skip.unknownwt", false, token.NoPos, name, "function", "not found", nil)
+		return
+	}
+	var wtP *ssa.Parameter
+	for _, prm := range f.Params {
+		if typeName(prm.Type()) == "WireType" {
+			wtP = prm
+		}
+	}
+	inUse := map[int64]bool{}
+	for wt := range p.wireTypesInUse() {
+		if kv, ok := p.wireTypeConst(wt); ok {
+			if v, ok := constant.Int64Val(kv); ok {
+				inUse[v] = true
+			}
+		}
+	}
+	for k := int64(0); k < 8; k++ {
+		if inUse[k] {
+			continue
+		}
+		k := k
+		fe := feasibleUnder(f, func(v ssa.Value) (constant.Value, bool) {
+			if wtP != nil && v == ssa.Value(wtP) {
+				return constant.MakeInt64(k), true
+			}
+			return nil, false
+		})
+		bad := false
+		nret := 0
+		for _, b := range f.Blocks {
+			if !fe.reach[b] {
+				continue
+			}
+			if r, ok := b.Instrs[len(b.Instrs)-1].(*ssa.Return); ok && len(r.Results) == 2 {
+				nret++
+				if isNilConst(r.Results[1]) {
+					bad = true
+				}
+			}
+		}
+		c.Oblige("X.skip.unknownwt", wtP != nil && fe.sawLeaf && nret > 0 && !bad, f.Pos(), name, fmt.Sprintf("wire type %d is an error", k),
+			"no codec writes this wire type: a field that carries it cannot be stepped over (its length is unknown), so Skip must report it - returning success leaves the reader at an arbitrary place in the message", nil)
+	}
+	c.Floor("X.skip.unknownwt", 2)
+}
+
+// ---------------------------------------------------------------------------
+// Round 9.
+
+// ruleSharedRecvWrites: X.write for the shared objects that are not codecs -
+// the Plenc instance and its registry. After construction they are used from
+// any goroutine without a lock, so none of their methods may store through the
+// receiver (sync.Map and sync/atomic calls are not stores). Also, for codecs: a
+// field of the receiver handed to a callee as the decode target
+// (unsafe.Pointer(&c.field)) is written by that callee.
+func ruleSharedRecvWrites(c *Ctx) {
+	p := c.P
+	shared := map[string]bool{"Plenc": true, "baseRegistry": true}
+	codecNames := map[string]bool{}
+	for _, ct := range p.Codecs {
+		codecNames[ct.Named.Obj().Name()] = true
+	}
+	n := 0
+	for _, f := range p.moduleFuncs() {
+		if len(f.Blocks) == 0 || f.Signature.Recv() == nil || len(f.Params) == 0 {
+			continue
+		}
+		rt := recvTypeName(f)
+		if !shared[rt] && !codecNames[rt] {
+			continue
+		}
+		if _, isPtr := f.Params[0].Type().(*types.Pointer); !isPtr {
+			continue // a value receiver is the method's own copy
+		}
+		name := ssaFuncName(f)
+		recv := ssa.Value(f.Params[0])
+		for _, b := range f.Blocks {
+			for _, in := range b.Instrs {
+				switch x := in.(type) {
+				case *ssa.Store:
+					if !shared[rt] {
+						continue // codecs: ruleNoStateCache
+					}
+					n++
+					r := rootOf(x.Addr)
+					bad := r.kind == rkParam && r.base == recv
+					c.Oblige("X.write", !bad, x.Pos(), name, storeDesc(x),
+						"a Plenc and its registry are shared by every goroutine that uses the instance: their methods may change them only through sync.Map / sync/atomic, never by a plain store to a field (a one-entry cache, a parked argument …)", nil)
+				case *ssa.Call:
+					// &recv.field converted to unsafe.Pointer and handed on: the callee writes the shared object
+					cal := x.Common().StaticCallee()
+					if cal != nil && cal.Pkg != nil && (cal.Pkg.Pkg.Path() == "sync" || cal.Pkg.Pkg.Path() == "sync/atomic") {
+						continue
+					}
+					for _, a := range x.Common().Args {
+						if !isUnsafePointer(a.Type()) {
+							continue
+						}
+						src := a
+						for {
+							if cv, ok := src.(*ssa.Convert); ok {
+								src = cv.X
+								continue
+							}
+							break
+						}
+						fa, ok := src.(*ssa.FieldAddr)
+						if !ok {
+							continue
+						}
+						if r := rootOf(fa); r.kind == rkParam && r.base == recv && r.loaded == 0 {
+							n++
+							c.Oblige("X.write", false, x.Pos(), name, "receiver field "+fieldName(fa)+" handed on as a write target",
+								"a field of the shared codec / instance is passed as unsafe.Pointer to a callee that writes through it (a scratch value kept on the codec): concurrent calls overwrite each other's data", nil)
+						}
+					}
+				}
+			}
+		}
+	}
+	_ = n
+}
+
+// rulePublishWinner: the codec CodecForTypeRegistry returns after a build is
+// the one the registry kept (the result of StoreOrSwap), so that every caller
+// of a racing first use ends up with the same codec object.
+func rulePublishWinner(c *Ctx) {
+	p := c.P
+	name := "plenc.Plenc.CodecForTypeRegistry"
+	f := p.ssaFunc(name)
+	if f == nil {
+		c.Oblige("X.publish.winner", false, token.NoPos, name, "function", "not found", nil)
+		return
+	}
+	n := 0
+	for _, b := range f.Blocks {
+		for _, in := range b.Instrs {
+			call, ok := in.(*ssa.Call)
+			if !ok || !call.Common().IsInvoke() || call.Common().Method.Name() != "StoreOrSwap" {
+				continue
+			}
+			n++
+			// its result reaches a return (directly or through φ / a local)
+			reaches := false
+			seen := map[ssa.Value]bool{}
+			var walk func(v ssa.Value)
+			walk = func(v ssa.Value) {
+				if seen[v] || reaches {
+					return
+				}
+				seen[v] = true
+				refs := v.Referrers()
+				if refs == nil {
+					return
+				}
+				for _, r := range *refs {
+					switch x := r.(type) {
+					case *ssa.Return:
+						if len(x.Results) > 0 && x.Results[0] == v {
+							reaches = true
+						}
+					case *ssa.Phi:
+						walk(x)
+					case *ssa.ChangeInterface:
+						walk(x)
+					case *ssa.MakeInterface:
+						walk(x)
+					}
+				}
+			}
+			walk(call)
+			// no other success return is reachable after the call with another codec
+			c.Oblige("X.publish.winner", reaches, call.Pos(), name, "the codec returned is the one StoreOrSwap kept",
+				"two goroutines that build a type's codec at the same time must both end up using the codec the registry kept; returning the local one gives the loser a private codec (its own interning tables, another identity)", nil)
+		}
+	}
+	if n == 0 {
+		c.Oblige("X.publish.winner", false, f.Pos(), name, "StoreOrSwap", "no call found", nil)
+	}
+	c.Floor("X.publish.winner", 1)
+}
+
+// ruleLeafReadFresh: X.leaf.fresh - the Read of a leaf codec (scalars, strings,
+// bytes, times) produces its result from the data alone: it does not read the
+// target it is about to overwrite. (Merging is for structs and maps; a leaf
+// that looks at the old value - appends to it, keeps its missing parts - makes
+// the result depend on what the target held before.)
+func ruleLeafReadFresh(c *Ctx) {
+	p := c.P
+	n := 0
+	for _, ct := range p.Codecs {
+		consts, _, ok := p.wireInfo(ct)
+		if !ok || len(consts) != 1 {
+			continue
+		}
+		leaf := consts[0] == "WTVarInt" || consts[0] == "WT64" || consts[0] == "WT32" || p.lengthLeaf(ct)
+		if !leaf || strings.HasPrefix(ct.Name, "null.") {
+			continue // null values: the Valid flag and the payload are separate fields, judged by T.null.*
+		}
+		f := p.SSA.FuncValue(ct.Methods["Read"].Fn)
+		if f == nil || len(f.Blocks) == 0 {
+			continue
+		}
+		name := ssaFuncName(f)
+		var ptr *ssa.Parameter
+		for _, prm := range f.Params {
+			if isUnsafePointer(prm.Type()) {
+				ptr = prm
+			}
+		}
+		if ptr == nil {
+			continue
+		}
+		n++
+		bad := ""
+		for _, b := range f.Blocks {
+			for _, in := range b.Instrs {
+				switch x := in.(type) {
+				case *ssa.UnOp:
+					if x.Op == token.MUL {
+						if r := rootOf(x.X); r.kind == rkParam && r.base == ssa.Value(ptr) {
+							bad = "loads the target"
+						}
+					}
+				case *ssa.Call:
+					// methods called on the target that are not writers of the library (t.IsZero(), len(*b) …)
+					cal := x.Common().StaticCallee()
+					if cal == nil || (cal.Pkg != nil && inModule(cal.Pkg.Pkg)) {
+						continue
+					}
+					for _, a := range x.Common().Args {
+						if _, isP := a.Type().Underlying().(*types.Pointer); isP {
+							if r := rootOf(a); r.kind == rkParam && r.base == ssa.Value(ptr) {
+								bad = "hands the target to " + cal.String()
+							}
+						}
+					}
+				}
+			}
+		}
+		c.Oblige("X.leaf.fresh", bad == "", f.Pos(), name, "Read does not look at the old value of its target",
+			"a decoded leaf value replaces what the target held: the result must come from the data alone"+map[bool]string{true: "", false: " (" + bad + ")"}[bad == ""], nil)
+	}
+	c.Floor("X.leaf.fresh", 8)
+}
+
+// ruleGrowCopy: X.grow.copy - typedslicecopy copies min(len(dst), len(src))
+// elements: where a slice is grown, the new header's Len is set (from the old
+// length) before the old elements are copied into it.
+func ruleGrowCopy(c *Ctx) {
+	p := c.P
+	n := 0
+	for _, f := range p.decodeClosure() {
+		if len(f.Blocks) == 0 {
+			continue
+		}
+		name := ssaFuncName(f)
+		for _, b := range f.Blocks {
+			for _, in := range b.Instrs {
+				call, ok := in.(*ssa.Call)
+				if !ok {
+					continue
+				}
+				cal := call.Common().StaticCallee()
+				if cal == nil || cal.Name() != "typedslicecopy" || len(call.Common().Args) != 3 {
+					continue
+				}
+				n++
+				good := false
+				if ld, ok := call.Common().Args[1].(*ssa.UnOp); ok && ld.Op == token.MUL {
+					if al, ok := ld.X.(*ssa.Alloc); ok {
+						for _, r := range *al.Referrers() {
+							fa, ok := r.(*ssa.FieldAddr)
+							if !ok || fieldName(fa) != "Len" {
+								continue
+							}
+							for _, r2 := range *fa.Referrers() {
+								st, ok := r2.(*ssa.Store)
+								if !ok || st.Addr != ssa.Value(fa) {
+									continue
+								}
+								if k, isK := st.Val.(*ssa.Const); isK && k.Value != nil && k.Value.ExactString() == "0" {
+									continue
+								}
+								sb := st.Block()
+								if sb == b {
+									// before the call in the same block
+									for _, x := range b.Instrs {
+										if x == ssa.Instruction(st) {
+											good = true
+										}
+										if x == ssa.Instruction(call) {
+											break
+										}
+									}
+								} else if sb.Dominates(b) {
+									good = true
+								}
+							}
+						}
+					}
+				}
+				c.Oblige("X.grow.copy", good, call.Pos(), name, "the grown slice has its length before the old elements are copied",
+					"typedslicecopy copies min(len(dst), len(src)) elements: a destination header whose Len is still zero receives nothing, and every element decoded before the growth step is lost", nil)
+			}
+		}
+	}
+	c.Floor("X.grow.copy", 2)
+}
+
+// ruleWalkerEntry: X.walker.entry - Descriptor.Read always walks: every return
+// of the exported entry point comes after the call of the walker proper, also
+// for empty data (the zero value encodes to nothing and still has a rendering:
+// 0, "", {} ...; an early return leaves the outputter with no document at all).
+func ruleWalkerEntry(c *Ctx) {
+	p := c.P
+	name := "plenccodec.Descriptor.Read"
+	f := p.ssaFunc(name)
+	if f == nil {
+		c.Oblige("X.walker.entry", false, token.NoPos, name, "function", "not found", nil)
+		return
+	}
+	var calls []*ssa.Call
+	for _, b := range f.Blocks {
+		for _, in := range b.Instrs {
+			if call, ok := in.(*ssa.Call); ok {
+				if cal := call.Common().StaticCallee(); cal != nil && recvTypeName(cal) == "Descriptor" && cal != f {
+					calls = append(calls, call)
+				}
+			}
+		}
+	}
+	ok := len(calls) > 0
+	for _, b := range f.Blocks {
+		if _, isRet := b.Instrs[len(b.Instrs)-1].(*ssa.Return); !isRet {
+			continue
+		}
+		dom := false
+		for _, call := range calls {
+			if call.Block() == b || call.Block().Dominates(b) {
+				dom = true
+			}
+		}
+		if !dom {
+			ok = false
+		}
+	}
+	c.Oblige("X.walker.entry", ok, f.Pos(), name, "every return follows the walk",
+		"the value that encodes to no bytes is still a value: the walk must run for empty data too, or the output is not a JSON document", nil)
+	c.Floor("X.walker.entry", 1)
+}
+
+// ruleSkipAnyWireType: X.skip.anywt - an unknown field is skipped whatever its
+// wire type: in the field loops (the functions that call both ReadTag and
+// Skip) the path to Skip is not controlled by a test of the wire type just
+// read. (Skip itself rejects the wire types that do not exist.)
+func ruleSkipAnyWireType(c *Ctx) {
+	p := c.P
+	n := 0
+	for _, f := range p.decodeClosure() {
+		if len(f.Blocks) == 0 {
+			continue
+		}
+		var wts []ssa.Value
+		var skips []*ssa.Call
+		for _, b := range f.Blocks {
+			for _, in := range b.Instrs {
+				cn, call := staticCalleeName(in)
+				if call == nil {
+					continue
+				}
+				switch cn {
+				case "plenccore.ReadTag":
+					for _, r := range *call.Referrers() {
+						if ex, ok := r.(*ssa.Extract); ok && ex.Index == 0 {
+							wts = append(wts, ex)
+						}
+					}
+				case "plenccore.Skip":
+					skips = append(skips, call)
+				}
+			}
+		}
+		if len(wts) == 0 || len(skips) == 0 {
+			continue
+		}
+		name := ssaFuncName(f)
+		isWT := func(v ssa.Value) bool {
+			v = stripConv(v)
+			for _, w := range wts {
+				if v == w {
+					return true
+				}
+			}
+			return false
+		}
+		for _, sk := range skips {
+			n++
+			bad := false
+			conds, _ := controllingConds(sk.Block())
+			for _, cd := range conds {
+				if bo, ok := cd.(*ssa.BinOp); ok && (isWT(bo.X) || isWT(bo.Y)) {
+					bad = true
+				}
+			}
+			c.Oblige("X.skip.anywt", !bad, sk.Pos(), name, "the skip of an unknown field does not depend on its wire type",
+				"a newer writer may add a field of any wire type: the reader steps over it with Skip, which knows every wire type - a wire-type test in front of the field dispatch turns such messages away", nil)
+		}
+	}
+	c.Floor("X.skip.anywt", 3)
+}
+
+// ruleMarshalViaCodec: X.marshal.viacodec - Plenc.Marshal has no encoding logic
+// of its own: what a success return hands back is the buffer it was given
+// (value omitted) or the result of Append on the codec this instance's
+// CodecForType returned. A fast path that encodes common types directly
+// hard-codes the default codecs and ignores the instance's registrations and
+// options.
+func ruleMarshalViaCodec(c *Ctx) {
+	p := c.P
+	name := "plenc.Plenc.Marshal"
+	f := p.ssaFunc(name)
+	if f == nil || len(f.Params) < 2 {
+		c.Oblige("X.marshal.viacodec", false, token.NoPos, name, "function", "not found", nil)
+		return
+	}
+	recv, data := ssa.Value(f.Params[0]), ssa.Value(f.Params[1])
+	fromLookup := func(v ssa.Value) bool {
+		for i := 0; i < 6; i++ {
+			switch x := v.(type) {
+			case *ssa.Extract:
+				v = x.Tuple
+				continue
+			case *ssa.Call:
+				cal := x.Common().StaticCallee()
+				return cal != nil && strings.HasPrefix(ssaFuncName(cal), "plenc.Plenc.CodecForType") && len(x.Common().Args) > 0 && x.Common().Args[0] == recv
+			}
+			break
+		}
+		return false
+	}
+	var okVal func(v ssa.Value, depth int) bool
+	okVal = func(v ssa.Value, depth int) bool {
+		if depth > 6 {
+			return false
+		}
+		if v == data {
+			return true
+		}
+		switch x := v.(type) {
+		case *ssa.Phi:
+			for _, e := range x.Edges {
+				if !okVal(e, depth+1) {
+					return false
+				}
+			}
+			return len(x.Edges) > 0
+		case *ssa.Call:
+			if x.Common().IsInvoke() && x.Common().Method.Name() == "Append" && isCodecInvoke(x) {
+				return fromLookup(x.Common().Value) && len(x.Common().Args) > 0 && okVal(x.Common().Args[0], depth+1)
+			}
+			// growing the buffer before appending: append(make(...), data...) and the like keep the prefix
+			if bi, ok := x.Common().Value.(*ssa.Builtin); ok && bi.Name() == "append" && len(x.Common().Args) == 2 {
+				return okVal(x.Common().Args[1], depth+1) || okVal(x.Common().Args[0], depth+1)
+			}
+		case *ssa.Slice:
+			return okVal(x.X, depth+1)
+		case *ssa.MakeSlice:
+			return true // a fresh buffer when none was given (prefix preservation is X.appendonly's business)
+		}
+		return false
+	}
+	n := 0
+	for _, b := range f.Blocks {
+		r, ok := b.Instrs[len(b.Instrs)-1].(*ssa.Return)
+		if !ok || len(r.Results) != 2 || !isNilConst(r.Results[1]) {
+			continue
+		}
+		n++
+		c.Oblige("X.marshal.viacodec", okVal(r.Results[0], 0), r.Pos(), name, "a success return is data or codec.Append(data, …) of the instance's own codec",
+			"which codec encodes a type is a property of the instance (options, registrations): Marshal must go through CodecForType on its receiver for every value", nil)
+	}
+	if n == 0 {
+		c.Oblige("X.marshal.viacodec", false, f.Pos(), name, "success return", "none found", nil)
+	}
+	c.Floor("X.marshal.viacodec", 1)
+}
